@@ -98,7 +98,7 @@ where
             None => {
                 write!(out, ".{}-{}", sp.start, sp.end).unwrap();
                 // None must be sticky for an ordinary lexer
-                if mode != "p" {
+                if mode == "n" {
                     let again = lex.next();
                     if again.is_some() || lex.span() != (sp.end..sp.end) {
                         out.push_str(" NOTSTICKY");
@@ -145,7 +145,7 @@ where
             Some(Err(e)) => write!(out, "!{}:{}-{} ", e.tag(), sp.start, sp.end).unwrap(),
             None => {
                 write!(out, ".{}-{}", sp.start, sp.end).unwrap();
-                if mode != "p" {
+                if mode == "n" {
                     let again = lex.next();
                     if again.is_some() || lex.span() != (sp.end..sp.end) {
                         out.push_str(" NOTSTICKY");
